@@ -27,6 +27,7 @@ type callTarget struct {
 	args  []Val
 	bind  []Val
 	origins []*Addr // where sequence-typed arguments were loaded from (parallel to args)
+	self    *Term   // the function value of a dynamic call
 }
 
 func sigParamNames(sig *types.Signature, withRecv bool) []string {
@@ -76,7 +77,8 @@ func (c *Ctx) resolveCall(st *State, fr *Frame, cc *ssa.CallCommon, fnv Val, arg
 				key = tk
 			}
 		}
-		return callTarget{key: key, sig: sig, names: sigParamNames(sig, false), args: args}
+		self := f
+		return callTarget{key: key, sig: sig, names: sigParamNames(sig, false), args: args, self: &self}
 	}
 	unsupp("call of %T", fnv)
 	return callTarget{}
@@ -296,6 +298,9 @@ func (c *Ctx) calleeEnv(st *State, old *State, fr *Frame, tgt callTarget) *Env {
 	}
 	if env.pkg == nil {
 		env.pkg = fr.fn.Pkg
+	}
+	if tgt.self != nil {
+		env.vars["self"] = *tgt.self
 	}
 	return env
 }
